@@ -73,6 +73,10 @@ class CollBase(object):
             self.generator = Q_GENERATORS["Collocation"](
                 nNodes=num_nodes, nodeType=node_type, quadType=quad_type, tLeft=tleft, tRight=tright
             )
+            # same rule on the unit interval, used as reference for the coefficients (see below)
+            unit = Q_GENERATORS["Collocation"](
+                nNodes=num_nodes, nodeType=node_type, quadType=quad_type, tLeft=0, tRight=1
+            )
         except Exception as e:
             raise CollocationError(f"could not instantiate qmat generator, got error: {e}") from e
 
@@ -89,20 +93,31 @@ class CollBase(object):
         self.order = self.generator.order
 
         # Compute coefficients
-        self.nodes = self._getNodes = self.generator.nodes.copy()
-        self.weights = self.generator.weights.copy()
+        # Note: the coefficients are taken from the rule on the unit interval and mapped affinely to [tleft, tright].
+        # When qmat places the nodes on [tleft, tright] itself, it moves the outer nodes onto the interval ends
+        # whenever np.allclose(end, node) holds. That tolerance (1e-8 + 1e-5 * |node|) is harmless on [0, 1], but for
+        # intervals far away from the origin or very short ones it is larger than the distance of the outer Gauss or
+        # Radau nodes from the ends: a node then sits on an end point the quadrature type excludes and the rule
+        # loses its order. (self.generator is still the one for [tleft, tright], it is needed to generate QDelta.)
+        length = tright - tleft
+        self.nodes = self._getNodes = tleft + length * unit.nodes
+        if self.left_is_node:
+            self.nodes[0] = tleft
+        if self.right_is_node:
+            self.nodes[-1] = tright
+        self.weights = length * unit.weights
 
         Q = np.zeros([num_nodes + 1, num_nodes + 1], dtype=float)
-        Q[1:, 1:] = self.generator.Q
+        Q[1:, 1:] = length * unit.Q
         self.Qmat = Q
 
         S = np.zeros([num_nodes + 1, num_nodes + 1], dtype=float)
-        S[1:, 1:] = super(self.generator.__class__, self.generator).S
+        S[1:, 1:] = unit.T @ Q[1:, 1:]
         # Note: qmat redefines the S matrix for collocation with integrals,
         # instead of differences of the Q matrix coefficients.
         # This does not passes the pySDC tests ... however the default S computation
-        # in qmat uses Q matrix coefficients differences, and that's what we
-        # use by using the parent property from the generator object.
+        # in qmat uses Q matrix coefficients differences (transfer matrix T of the
+        # generator applied to Q), and that's what we use here.
         self.Smat = self._gen_Smatrix = S
 
         self.delta_m = self._gen_deltas
